@@ -196,6 +196,46 @@ def float_corner_cases(ctx):
                 ctx.violation("blocks-differ-from-model", {"case": case, "first": None if first is None else len(first), "second": None if second is None else len(second)})
 
 
+def exact_number_types(ctx):
+    """durations given as exact rationals (fractions.Fraction): floor(block_dur*rate) and round(max_read*rate) are then exact too -
+    29/100 s at 100 Hz is 29 samples although the nearest double times 100 is 28.999999999999996"""
+    from fractions import Fraction
+
+    for num, den, rate in ((29, 100, 100), (57, 100, 100), (58, 100, 100), (7, 100, 100), (3, 10, 10), (1, 3, 9), (35, 100, 1000), (11, 10, 10)):
+        block_dur = Fraction(num, den)
+        want = (block_dur * rate).__floor__()
+        ctx.evaluations += 1
+        ctx.count("exact_rational_duration_cases")
+        data = bytes(range(256))[: 3 * want + 2]
+        case = {"ctor": [rate, f"Fraction({num},{den})", None], "expected_block_size": want}
+        try:
+            rd = AudioReader(data, block_dur=block_dur, sr=rate, sw=1, ch=1)
+            rd.open()
+            blocks = [rd.read() for _ in range(5)]
+            rd.close()
+        except Exception as exc:
+            ctx.violation("constructor-rejects-valid-durations", {"case": case, "exception": repr(exc)[:200]})
+            continue
+        exp = [data[i : i + want] for i in range(0, len(data), want)][:5]
+        exp += [None] * (5 - len(exp))
+        if rd.block_size != want or blocks != exp:
+            ctx.violation("block_size-not-floor(block_dur*rate)", {"case": case, "block_size": rd.block_size, "sizes": [None if b is None else len(b) for b in blocks]})
+    for num, den, rate, want in ((23, 40, 100, 58), (1, 8, 100, 12), (3, 8, 100, 38), (29, 100, 100, 29)):
+        mr = Fraction(num, den)
+        ctx.count("exact_rational_duration_cases")
+        data = bytes(range(200))
+        try:
+            rd = AudioReader(data, block_dur=0.1, max_read=mr, sr=rate, sw=1, ch=1)
+            rd.open()
+            got = b"".join(iter(rd.read, None))
+            rd.close()
+        except Exception as exc:
+            ctx.violation("constructor-rejects-valid-durations", {"case": {"max_read": f"Fraction({num},{den})", "rate": rate}, "exception": repr(exc)[:200]})
+            continue
+        if got != data[:want]:
+            ctx.violation("visible-data-not-round(max_read*rate)", {"case": {"max_read": f"Fraction({num},{den})", "rate": rate}, "visible": len(got), "expected": want})
+
+
 def exhaustive_core(ctx, conf, tmpdir):
     idx = 0
     for n in range(0, conf["exh_len"] + 1):
@@ -226,6 +266,7 @@ def run_shard(ctx):
         if ctx.shard == 0:
             constructor_cases(ctx)
             float_corner_cases(ctx)
+            exact_number_types(ctx)
         exhaustive_core(ctx, conf, tmpdir)
         rng = ctx.rng("random")
         for i in range(conf["random"]):
